@@ -50,6 +50,26 @@ func Handle(c *core.Check, st core.State) {
 		c.Violation("implied-type-differs/"+sn.K, fmt.Sprintf("%s: ImpliedType is %s, specification says %s", desc, ity.FriendlyName(), modelIty.FriendlyName()), vec)
 		return
 	}
+	// bodies whose nested block bodies report themselves as unknown (hcldec.UnknownBody, as the
+	// dynamic block extension does for an unknown for_each): the result must still have the implied type
+	if len(items) > 0 {
+		var uval cty.Value
+		c.Count("evaluations", 1)
+		if rec, p := core.Guard(func() { uval, _ = hcldec.Decode(unknownBlocks{f.Body}, spec, dec.Ctx()) }); p {
+			c.Violation("panic/unknown-body/"+culprit(sn), fmt.Sprintf("%s: Decode with unknown block bodies panicked: %v", desc, rec), vec)
+			return
+		}
+		if uval == cty.NilVal || !dec.Conforms(uval.Type(), ity.WithoutOptionalAttributesDeep()) {
+			usig := "type-nonconforming/unknown-body/" + typeDiff(uval.Type(), ity.WithoutOptionalAttributesDeep(), "")
+			if uval != cty.NilVal && uval.IsKnown() {
+				// no block was affected by the unknown bodies: the plain decode's own finding
+				usig = "type-nonconforming/" + typeDiff(uval.Type(), ity.WithoutOptionalAttributesDeep(), "")
+			}
+			c.Violation(usig,
+				fmt.Sprintf("%s: with unknown block bodies Decode returned %s of type %s, implied type is %s", desc, e1.Describe(uval), uval.Type().FriendlyName(), ity.FriendlyName()), vec)
+			return
+		}
+	}
 	for _, partial := range []bool{false, true} {
 		var val cty.Value
 		var diags hcl.Diagnostics
@@ -252,4 +272,36 @@ func valueDiff(got, want cty.Value) string {
 		}
 	}
 	return ""
+}
+
+// unknownBlocks wraps a body so that every block it returns has a body that implements
+// hcldec.UnknownBody with Unknown() = true (and otherwise behaves like the original).
+type unknownBlocks struct{ hcl.Body }
+
+type unknownBody struct{ hcl.Body }
+
+func (unknownBody) Unknown() bool { return true }
+
+func wrapBlocks(c *hcl.BodyContent) *hcl.BodyContent {
+	if c == nil {
+		return nil
+	}
+	out := *c
+	out.Blocks = nil
+	for _, b := range c.Blocks {
+		nb := *b
+		nb.Body = unknownBody{b.Body}
+		out.Blocks = append(out.Blocks, &nb)
+	}
+	return &out
+}
+
+func (u unknownBlocks) Content(schema *hcl.BodySchema) (*hcl.BodyContent, hcl.Diagnostics) {
+	c, d := u.Body.Content(schema)
+	return wrapBlocks(c), d
+}
+
+func (u unknownBlocks) PartialContent(schema *hcl.BodySchema) (*hcl.BodyContent, hcl.Body, hcl.Diagnostics) {
+	c, rem, d := u.Body.PartialContent(schema)
+	return wrapBlocks(c), unknownBlocks{rem}, d
 }
